@@ -143,6 +143,14 @@ IsMNum(e) == e.op \in {"m_overlap", "m_measure"}
 RefMNum(e) == CASE e.op = "m_overlap" -> Vdot(Conj(A(e)), B(e))
                 [] e.op = "m_measure" -> Vdot(Conj(A(e)), MApply(LinFold(e.rs, e.amp, Len(e.rs)), B(e), e.N))
 
+(* C03 'operations on incompatibly fused legs are rejected with YastnError rather than computed': a dimension conflict on a native leg that sits INSIDE a hard-fused *)
+(* group is not visible from the fused leg (the effective sectors of the operands may even be disjoint), for ANY pair of operands of an n-ary sum                     *)
+HardFusedAxes(T) == UNION {RangeOf(NatOf(T, k)) : k \in {j \in 1..LRank(T) : T.grp[j][1][1] > 1 /\ T.grp[j][1][2] = "p"}}
+HiddenDimConflict(a, b) == NRank(a) = NRank(b) /\ \E k \in HardFusedAxes(a) : ~DimsAgree(a.legs[k], b.legs[k])
+MustRejectHidden(e) == CASE e.op = "lincomb" -> SameShape(A(e), B(e)) /\ HiddenDimConflict(A(e), B(e))
+                         [] e.op = "add3" -> SameShape(A(e), B(e)) /\ SameShape(A(e), reg[e.c])
+                                             /\ (HiddenDimConflict(A(e), B(e)) \/ HiddenDimConflict(A(e), reg[e.c]) \/ HiddenDimConflict(B(e), reg[e.c]))
+                         [] OTHER -> FALSE
 (* inputs on which the outcome is unspecified (6.4 of DESIGN.md): a charge sector with two different dimensions in the operands *)
 Unspec(e) == CASE e.op = "lincomb" -> SameShape(A(e), B(e)) /\ ~DimsOKSame(A(e), B(e))
                [] e.op = "add3" -> SameShape(A(e), B(e)) /\ SameShape(A(e), reg[e.c]) /\ ~(DimsOKSame(A(e), B(e)) /\ DimsOKSame(A(e), reg[e.c]) /\ DimsOKSame(B(e), reg[e.c]))
@@ -208,6 +216,7 @@ NconOK(e) == LET r == Ref(e) IN \A k \in 1..Len(e.results) :
                  /\ Conforms(N(e.results[k].obs), r) /\ WellFormed(N(e.results[k].obs)) /\ RawOK(e.results[k].obs)
 ResOK(e) == LET o == N(e.obs) IN e.obs.views = "same" /\ Conforms(o, Ref(e)) /\ WellFormed(o) /\ RawOK(e.obs)
 Ok(e) == IF IsInit(e) THEN WellFormed(N(e.obs)) /\ RawOK(e.obs)
+         ELSE IF MustRejectHidden(e) THEN e.out = "YastnError"
          ELSE IF Unspec(e) THEN TRUE
          ELSE IF IsNum(e) THEN (IF PreNum(e) THEN e.out = "ok" /\ Z(e.val) = RefNum(e) ELSE e.out = "YastnError")
          ELSE IF IsMps(e) THEN MpsOK(e)
@@ -217,6 +226,7 @@ Ok(e) == IF IsInit(e) THEN WellFormed(N(e.obs)) /\ RawOK(e.obs)
          ELSE IF Pre(e) THEN e.out = "ok" /\ ResOK(e)
          ELSE e.out = "YastnError"
 Why(e) == IF IsInit(e) THEN <<"initial tensor not well-formed", WfLegs(N(e.obs)), WfGrp(N(e.obs)), WfEnt(N(e.obs)), WfDiag(N(e.obs)), e.obs.raw, e.obs.views>>
+          ELSE IF MustRejectHidden(e) THEN <<"operands disagree on the dimension of a sector inside a hard-fused group: must be rejected with YastnError, got", e.out>>
           ELSE IF IsNum(e) THEN (IF PreNum(e) THEN <<"number", e.out, IF e.out = "ok" THEN Z(e.val) ELSE CZ, "reference", RefNum(e)>>
                                  ELSE <<"must be rejected with YastnError, got", e.out>>)
           ELSE IF IsMps(e) THEN WhyMps(e)
@@ -233,14 +243,20 @@ Why(e) == IF IsInit(e) THEN <<"initial tensor not well-formed", WfLegs(N(e.obs))
           ELSE IF ~WellFormed(N(e.obs)) THEN <<"result not well-formed (C02)", WfLegs(N(e.obs)), WfGrp(N(e.obs)), WfEnt(N(e.obs)), WfDiag(N(e.obs))>>
           ELSE <<"raw block structure / is_consistent / views (C02, C01)", e.obs.raw, e.obs.views>>
 
-Appends(e) == (IsInit(e) \/ (~IsNum(e) /\ ~IsMNum(e) /\ ~IsFact(e) /\ e.op # "ncon" /\ e.out = "ok"))
+(* register numbering: a program executed under several configurations keeps the numbering of the GENERATING execution (field reg): a step that is legitimately   *)
+(* rejected here (e.g. explicit and default fusion modes mixed under another default) leaves a placeholder, a step computed only here is validated but not registered *)
+HasReg(e) == "reg" \in DOMAIN e
+Missing == [sym |-> "missing"]
+Appends(e) == IsInit(e) \/ (~IsNum(e) /\ ~IsMNum(e) /\ ~IsFact(e) /\ e.op # "ncon" /\ (IF HasReg(e) THEN e.reg ELSE e.out = "ok"))
+NewReg(e) == IF "obs" \in DOMAIN e THEN N(e.obs) ELSE Missing
+OperandMissing(e) == ~IsInit(e) /\ e.out = "operand missing (an earlier step failed in this execution)"
 Init == tid \in 1..Len(Traces) /\ l = 1 /\ reg = <<>>
-Step == /\ l \in 1..Len(Ev) /\ (Ok(Ev[l]) = TRUE) /\ l' = l + 1 /\ UNCHANGED tid
-        /\ reg' = IF Appends(Ev[l]) THEN Append(reg, N(Ev[l].obs)) ELSE reg
+Step == /\ l \in 1..Len(Ev) /\ (OperandMissing(Ev[l]) \/ Ok(Ev[l]) = TRUE) /\ l' = l + 1 /\ UNCHANGED tid
+        /\ reg' = IF Appends(Ev[l]) THEN Append(reg, NewReg(Ev[l])) ELSE reg
 (* a rejected event stops the trace (the state after it is not trustworthy) *)
-Fail == l \in 1..Len(Ev) /\ ~Ok(Ev[l]) /\ PrintT(<<"REJECT", tid, l, ToString(<<Ev[l].op, Why(Ev[l])>>)>>) /\ l' = 0 /\ UNCHANGED <<tid, reg>>
+Fail == l \in 1..Len(Ev) /\ ~OperandMissing(Ev[l]) /\ ~Ok(Ev[l]) /\ PrintT(<<"REJECT", tid, l, ToString(<<Ev[l].op, Why(Ev[l])>>)>>) /\ l' = 0 /\ UNCHANGED <<tid, reg>>
 Done == l = Len(Ev) + 1 /\ PrintT(<<"ACCEPT", tid>>) /\ l' = -1 /\ UNCHANGED <<tid, reg>>
 Next == Step \/ Fail \/ Done
 (* C02 as an invariant of the trace spec: every register, after every event, is well-formed *)
-Inv_WF == \A r \in 1..Len(reg) : WellFormed(reg[r])
+Inv_WF == \A r \in 1..Len(reg) : reg[r] = Missing \/ WellFormed(reg[r])
 =============================================================================
